@@ -91,6 +91,35 @@ def probe_points(V, radius=0.0):
     return np.vstack(pts), size
 
 
+_W = None
+
+
+def _membership(s, P, size):
+    """is_inside at the probe points as 0/1, with 2 where the answer is not stable.
+
+    A probe may happen to lie on the boundary (e.g. the vertex mean of a lattice polygon lies on an edge line, and so
+    do points between it and that edge's end points); there the answer is decided by rounding and two equally correct
+    shapes may differ. Every probe is therefore also asked at p +- 1e-7 size along a fixed generic direction, in the
+    same batch; comparisons only count probes that both sides call stable."""
+    global _W
+    if _W is None:
+        k = np.arange(1, 4001, dtype=float)
+        W = np.stack([np.sin(12.9898 * k), np.sin(78.233 * k + 1.0), np.sin(37.719 * k + 2.0)], axis=1)
+        _W = W / np.linalg.norm(W, axis=1)[:, None]
+    P = np.asarray(P, dtype=float)
+    n = len(P)
+    W = _W[np.arange(n) % len(_W)].copy()
+    r = call(s.is_inside, np.vstack([P, P + 1e-7 * size * W, P - 1e-7 * size * W]))
+    if isinstance(r, Raised):
+        return r
+    r = np.asarray(r)
+    if r.shape != (3 * n,):
+        return r
+    base = r[:n].astype(np.int8)
+    base[(r[:n] != r[n:2 * n]) | (r[:n] != r[2 * n:])] = 2
+    return base
+
+
 def readers(shape, with_queries=True, skip=()):
     """List of (name, fn(shape) -> value): every public property plus the standard queries."""
     cls = type(shape)
@@ -110,7 +139,7 @@ def readers(shape, with_queries=True, skip=()):
             rad = float(r_) if not isinstance(r_, Raised) else 0.0
         P, size = probe_points(V, rad)
         if not isinstance(shape, S.ConvexSpheropolygon):
-            out.append(("is_inside", lambda s: call(s.is_inside, P.copy())))
+            out.append(("is_inside", lambda s: _membership(s, P, size)))
         if hasattr(shape, "get_face_area"):
             out.append(("get_face_area", lambda s: call(s.get_face_area)))
 
@@ -136,7 +165,7 @@ def readers(shape, with_queries=True, skip=()):
         d = np.array([[0.2, 0.1, 0], [0.9, 0.2, 0], [-0.5, 0.8, 0], [1.2, 0, 0], [0, -1.4, 0], [0.3, 0.3, 0.3], [0.0, 0.0, 1.1]]) * m
         if not is3d(shape):
             d = d[:5]
-        out.append(("is_inside", lambda s: call(s.is_inside, c + d)))
+        out.append(("is_inside", lambda s: _membership(s, c + d, m)))
         if hasattr(shape, "distance_to_surface") and not is3d(shape):
             out.append(("distance_to_surface", lambda s: call(s.distance_to_surface, np.array([0.0, 0.4, 1.3, 2.2, 3.3, 4.1, 5.2, 6.0]))))
         if isinstance(shape, S.Sphere):
@@ -259,6 +288,12 @@ def _cmp(rec, name, x, y, L, three_d, sig, prefix, rtol):
             pass
         else:
             rec.check(x == y, prefix + "equal", s2, a=repr(x)[:120], b=repr(y)[:120])
+            return
+    if name == "is_inside":
+        ax, ay = np.asarray(x), np.asarray(y)
+        if ax.shape == ay.shape and ax.dtype.kind in "iu" and ay.dtype.kind in "iu":
+            both = (ax != 2) & (ay != 2)
+            rec.check(bool(np.all(ax[both] == ay[both])), prefix + "equal", s2, a=repr(x)[:120], b=repr(y)[:120])
             return
     try:
         ax = np.asarray(x)
